@@ -176,7 +176,8 @@ class TreeCheck:
         for n, path in pre:
             if greedy and any(any(a is s for a in path[:-1]) for s in skip):
                 continue
-            if any(c == match for c in walk.child_nodes(n)):
+            # (the rule is evaluated on a TypeDef node itself, whose body is then not descended into)
+            if any(c == match for c in walk.child_nodes(n, with_typedef_body=True)):
                 exp.append(n)
                 skip.append(n)
         try:
